@@ -230,9 +230,67 @@ def main_all():
                 print("SURVIVED %s:%s  %s" % (rel, qual, desc))
 
 
+def _nf_one(args):
+    rel, qual, lineno, descs_and_src = args
+    from sa.nf import normal_form, module_consts, Unsupported
+    out = []
+    for desc, newsrc in descs_and_src:
+        try:
+            t2 = ast.parse(newsrc)
+        except SyntaxError:
+            continue
+        f2 = None
+        for n in ast.walk(t2):
+            if isinstance(n, (ast.FunctionDef, ast.AsyncFunctionDef)) and n.name == qual.split(".")[-1] and n.lineno == lineno:
+                f2 = n
+        if f2 is None:
+            continue
+        out.append((desc, f2, t2))
+    return rel, qual, out
+
+
+def main_nfcheck():
+    """soundness probe of the normaliser: every syntactic mutant of every function must have a normal form different from the original's
+    (a mutant with the same normal form is either really equivalent or shows a hole in the normaliser)"""
+    from sa.nf import normal_form, module_consts, Unsupported
+    repo = Repo()
+    n_mut = n_same = n_unsup = 0
+    same = []
+    for m in repo.all_modules():
+        tree = ast.parse(m.source)
+        consts = module_consts(tree)
+        for fn in [n for n in ast.walk(tree) if isinstance(n, (ast.FunctionDef, ast.AsyncFunctionDef))]:
+            def deep(f):
+                # the function and, as units of their own, the functions nested in it
+                return tuple(normal_form(x, consts) for x in ast.walk(f) if isinstance(x, (ast.FunctionDef, ast.AsyncFunctionDef)))
+            try:
+                base = deep(fn)
+            except Unsupported:
+                n_unsup += 1
+                continue
+            for desc, f2 in gen_mutants(fn):
+                n_mut += 1
+                try:
+                    ast.fix_missing_locations(f2)
+                    nf2 = deep(f2)
+                except Unsupported:
+                    continue
+                except Exception as e:
+                    same.append((m.rel, fn.name, desc, "CRASH %s" % e))
+                    continue
+                if nf2 == base:
+                    n_same += 1
+                    same.append((m.rel, fn.name, desc, ""))
+    print("nfcheck: %d mutants, %d with an unchanged normal form, %d functions unsupported" % (n_mut, n_same, n_unsup))
+    for rel, q, desc, extra in same:
+        print("SAME-NF %s:%s  %s %s" % (rel, q, desc, extra))
+
+
 def main():
     if sys.argv[1].upper() == "ALL":
         return main_all()
+    if sys.argv[1].upper() == "NFCHECK":
+        return main_nfcheck()
     pid = sys.argv[1].upper()
     jobs = 16
     only = None
